@@ -36,6 +36,7 @@ import (
 func init() { register("C13", runC13) }
 
 func runC13(c *Ctx) {
+	c13EscapeSweep(c)
 	c13CompareCorr(c)
 	c13SortCorr(c)
 	c13Numbers(c)
@@ -883,7 +884,9 @@ func c13GenNode(r *rand.Rand, depth int) *c13Node {
 type c13Style struct {
 	r        *rand.Rand
 	ws       int // 0: none, else probability weight of whitespace between tokens
-	escape   int // 0: minimal, 1: mixed, 2: everything as \uXXXX
+	escape   int // 0: minimal, 1: mixed, 2: everything as \uXXXX, 3: minimal except ONE control character spelled \u00XX
+	oneCtl   rune // escape == 3: the control character (\b \f \n \r \t) written as \u00XX …
+	oneUpper bool // … with upper-case hex digits
 	numbers  bool
 	permute  bool
 	spelled  map[string]int // statistics
@@ -903,6 +906,16 @@ func (s *c13Style) space(b []byte) []byte {
 func (s *c13Style) quote(b []byte, str string) []byte {
 	b = append(b, '"')
 	for _, r := range str {
+		if s.escape == 3 && r == s.oneCtl {
+			// the ONLY non-canonical feature of the literal: the \u00XX spelling of a character that has a two-character escape
+			if s.oneUpper {
+				b = append(b, fmt.Sprintf("\\u%04X", r)...)
+			} else {
+				b = append(b, fmt.Sprintf("\\u%04x", r)...)
+			}
+			s.spelled[fmt.Sprintf("single-feature-u%04x-upper=%v", r, s.oneUpper)]++
+			continue
+		}
 		mode := 0 // 0 literal if allowed, 1 short escape if exists, 2 \uXXXX
 		switch s.escape {
 		case 1:
@@ -940,7 +953,7 @@ func (s *c13Style) quote(b []byte, str string) []byte {
 			b = utf8.AppendRune(b, r)
 		default:
 			format := "\\u%04x"
-			if s.r.IntN(2) == 0 {
+			if s.escape != 0 && s.escape != 3 && s.r.IntN(2) == 0 { // the minimal styles keep the canonical lower case
 				format = "\\u%04X"
 			}
 			if r >= 0x10000 {
@@ -1509,6 +1522,46 @@ func c13CanonLine(c *Ctx, text []byte) (line, want string, ok bool) {
 	return line, want, true
 }
 
+// c13EscapeSweep: for EACH of \b \f \n \r \t, in lower and in upper case, literals whose ONLY non-canonical feature is
+// the \u00XX spelling of that one character — as a string value and as a member name, alone and surrounded by
+// canonically spelled content (ReformatString copies a literal verbatim when ConsumeString reports no
+// non-canonical feature, so any second feature in the same literal would hide a hole in that report).
+func c13EscapeSweep(c *Ctx) {
+	r := c.SubRng(55)
+	stats, forms := map[string]int{}, map[string]int{}
+	contexts := []func(s string) string{
+		func(s string) string { return s },
+		func(s string) string { return "a" + s + "b" },
+		func(s string) string { return s + s },
+		func(s string) string { return "é\"" + s + "\\\x01\x1f\x7f\u2028" + "\U0001F600" }, // canonical neighbours: \" \\ \u0001 \u001f DEL U+2028 4-byte
+		func(s string) string { return "\b\f\n\r\t" + s },                                   // the other short escapes, spelled canonically
+	}
+	for _, ctl := range "\b\f\n\r\t" {
+		for _, upper := range []bool{false, true} {
+			for ci, ctx := range contexts {
+				str := ctx(string(ctl))
+				val := &c13Node{kind: '"', str: str}
+				trees := []*c13Node{
+					val,
+					{kind: '[', elems: []*c13Node{val, {kind: 't'}}},
+					{kind: '{', names: []string{str}, vals: []*c13Node{{kind: 'n'}}},
+					{kind: '{', names: []string{"z", str, "a" + str}, vals: []*c13Node{{kind: 'f'}, val, {kind: '{', names: []string{str}, vals: []*c13Node{val}}}},
+				}
+				for ti, tree := range trees {
+					one := &c13Style{r: r, escape: 3, oneCtl: ctl, oneUpper: upper, spelled: stats, numForms: forms}
+					min := &c13Style{r: r, escape: 0, spelled: stats, numForms: forms}
+					t1 := one.spell(nil, tree)
+					t2 := min.spell(nil, tree)
+					c.Hit(fmt.Sprintf("escape-sweep/u%04x/upper=%v", ctl, upper))
+					_ = ci
+					_ = ti
+					c13CheckTree(c, tree, t1, t2)
+				}
+			}
+		}
+	}
+}
+
 // ---- the predicate
 
 func c13Canonicalize(c *Ctx) {
@@ -1565,7 +1618,8 @@ func c13Canonicalize(c *Ctx) {
 				if r.IntN(3) == 0 && tree.kind != '{' { // bias towards objects at the top
 					tree = &c13Node{kind: '{', names: []string{"k", "￿", "\U00010000"}, vals: []*c13Node{tree, c13GenNode(r, 2), c13GenNode(r, 1)}}
 				}
-				st1 := &c13Style{r: r, ws: r.IntN(3), escape: r.IntN(3), numbers: r.IntN(2) == 0, permute: true, spelled: stats, numForms: numForms}
+				st1 := &c13Style{r: r, ws: r.IntN(3), escape: r.IntN(4), oneCtl: rune("\b\f\n\r\t"[r.IntN(5)]), oneUpper: r.IntN(2) == 0,
+					numbers: r.IntN(2) == 0, permute: true, spelled: stats, numForms: numForms}
 				st2 := &c13Style{r: r, ws: r.IntN(3), escape: r.IntN(3), numbers: true, permute: true, spelled: stats, numForms: numForms}
 				t1 := st1.space(nil)
 				t1 = st1.spell(t1, tree)
